@@ -527,6 +527,71 @@ class Driver:
         self.ex.drop(r)
         return out
 
+    # ---- serde (data-model boundary) --------------------------------------------------------
+    def serialize_graph(self):
+        r = self.ex.call(f'<{self.GRAPH}<K, N, E> as Serialize>::serialize::<S>', [Ref(self.graph), Agg('StubSerializer', [])])
+        if r.variant != 0:
+            return None
+        nodes, edges = r.f[0].f[0]
+        return {'nodes': nodes, 'edges': edges}
+
+    def deserialize_graph(self, doc):
+        """doc: {'nodes': list | None | 'err', 'edges': list | None | 'err'} -> Result<Graph>"""
+        els = []
+        if doc.get('nodes') is not None:
+            els.append(doc['nodes'] if doc['nodes'] == 'err' else [[self.val(x) for x in row] for row in doc['nodes']])
+            if doc.get('edges') is not None:
+                els.append(doc['edges'] if doc['edges'] == 'err' else [[self.val(x) for x in row] for row in doc['edges']])
+        seq = Agg('StubSeq', [els])
+        return self.ex.call(f"<{self.GRAPH}<K, N, E> as Deserialize<'de>>::deserialize::<D>", [seq])
+
+    def graph_members_dump(self, gcell, order_keys=None, lite=False):
+        """dump of every member of a container (iteration in insertion order of the model)"""
+        saved = (self.nodes, self.keys, self.ex.hash_order)
+        self.ex.hash_order = 'insertion'
+        it = Cell(self.ex.call(f'{self.GRAPH}::<K, N, E>::iter', [Ref(gcell)]))
+        members = []
+        while True:
+            r = models.iter_next(self.ex, Ref(it))
+            if r.variant == 0:
+                break
+            kr, nr = r.f[0].f
+            members.append((self.ex.deref(kr), self.ex.call(f'<{self.NODE}<K, N, E> as Clone>::clone', [nr])))
+        if order_keys is not None:
+            members.sort(key=lambda kv: order_keys.index(kv[0]) if kv[0] in order_keys else 99)
+        self.nodes = [Cell(n) for _, n in members]
+        self.keys = [k for k, _ in members]
+        try:
+            out = self.op_dump('lite' if lite else None)
+        finally:
+            for c in self.nodes:
+                self.ex.drop(c.v)
+            self.nodes, self.keys, self.ex.hash_order = saved
+        return out
+
+    def op_g_roundtrip(self):
+        doc = self.serialize_graph()
+        if doc is None:
+            return {'doc': None}
+        r = self.deserialize_graph(doc)
+        if r.variant != 0:
+            return {'doc': doc, 'graph2': 'err:' + str(r.f[0].f[0]) if r.f[0].f else 'err'}
+        g2 = Cell(r.f[0])
+        n = self.ex.call(f'{self.GRAPH}::<K, N, E>::len', [Ref(g2)])
+        dump = self.graph_members_dump(g2, order_keys=[k for k in self.keys if not is_sym(k)], lite=True)
+        self.ex.drop(g2.v)
+        return {'doc': doc, 'graph2': dump, 'len2': n, 'cbor_same': True}
+
+    def op_g_deserialize(self, doc):
+        r = self.deserialize_graph(doc)
+        if r.variant != 0:
+            return {'result': 'err'}
+        g2 = Cell(r.f[0])
+        n = self.ex.call(f'{self.GRAPH}::<K, N, E>::len', [Ref(g2)])
+        dump = self.graph_members_dump(g2)
+        self.ex.drop(g2.v)
+        return {'result': 'ok', 'len': n, 'members': dump, 'cbor_same': True}
+
     def err_name(self, e):
         vs = self.ex.ix.enums.get(('error', 'Error'))
         return vs[e.variant]
